@@ -38,3 +38,165 @@ package cache
 //@   ensures len(payload) < 3 ==> !vps && !sps && !pps && !islice
 //@   ensures len(payload) >= 3 && hevcType(payload) != 48 && hevcType(payload) != 49 ==> vps == (hevcType(payload) == 32) && sps == (hevcType(payload) == 33) && pps == (hevcType(payload) == 34) && islice == hevcIrap(hevcType(payload))
 //@   ensures len(payload) >= 3 && hevcType(payload) == 49 ==> vps == (payload[2]&0x80 != 0 && payload[2]&0x3f == 32) && sps == (payload[2]&0x80 != 0 && payload[2]&0x3f == 33) && pps == (payload[2]&0x80 != 0 && payload[2]&0x3f == 34) && islice == (payload[2]&0x80 != 0 && hevcIrap(payload[2]&0x3f))
+
+// ---- assumed contracts on dependencies (scoped to this package) ---------------------------------------
+//@ import "sync"
+//@ import "github.com/cnotch/queue"
+//@ import "github.com/cnotch/ipchub/av/format"
+//@ import "github.com/cnotch/ipchub/av/format/rtp"
+//@ import "github.com/cnotch/ipchub/av/format/flv"
+// seq(q): ghost sequence of the elements held by a queue.Queue, oldest first
+//@ extern func (q *queue.Queue) Reset() ()
+//@   modifies seq(q)
+//@   ensures len(seq(q)) == 0
+//@ extern func (q *queue.Queue) Push(e interface{}) ()
+//@   modifies
+//@   appends seq(q), e
+//@ extern func (q *queue.Queue) PushN(elems []interface{}) ()
+//@   modifies
+//@   appendsAll seq(q), elems
+//@ extern func (q *queue.Queue) Len() (n int)
+//@   modifies
+//@   ensures n == len(seq(q))
+//@ extern func (q *queue.Queue) Elems() (r []interface{})
+//@   modifies
+//@   ensures sameSeq(r, seq(q))
+//@ extern func (p format.Packet) Size() (n int)
+//@   modifies
+// mutual exclusion: held(mu) is the ghost lock state; no double lock, no unlock of a free lock
+//@ extern func (mu *sync.RWMutex) Lock() ()
+//@   requires !held(mu)
+//@   modifies held(mu)
+//@   ensures held(mu)
+//@ extern func (mu *sync.RWMutex) Unlock() ()
+//@   requires held(mu)
+//@   modifies held(mu)
+//@   ensures !held(mu)
+//@ extern func (mu *sync.RWMutex) RLock() ()
+//@   requires !held(mu)
+//@   modifies held(mu)
+//@   ensures held(mu)
+//@ extern func (mu *sync.RWMutex) RUnlock() ()
+//@   requires held(mu)
+//@   modifies held(mu)
+//@   ensures !held(mu)
+
+// ---- H.264 late-joiner cache (C02) ------------------------------------------------------------------------
+// what a non-aggregation payload carries (RFC 6184): single NAL unit, or the start fragment of an FU-A
+//@ spec func h264Simple(p []byte) bool = len(p) >= 3 && !h264IsAggr(p)
+//@ spec func h264Carries(p []byte, t byte) bool = (!h264IsFu(p) && h264Type(p) == t) || (h264IsFu(p) && h264FuStart(p) && h264FuType(p) == t)
+//@ spec func rtpPayload(p *rtp.Packet) []byte = p.Data[p.PayloadOffset:]
+//@ spec func rtpOK(p *rtp.Packet) bool = p != nil && 0 <= p.PayloadOffset && p.PayloadOffset <= len(p.Data)
+
+//@ func (cache *H264Cache) CachePack(pack Pack) (keyframe bool)
+//@   requires cache != nil && typeIs(pack, "*rtp.Packet") && rtpOK(pack.(*rtp.Packet)) && !held(&cache.l)
+//@   modifies cache.sps, cache.pps, seq(&cache.gop), held(&cache.l)
+//@   ensures !held(&cache.l)
+//@   ensures pack.(*rtp.Packet).Channel != rtp.ChannelVideo ==> !keyframe && cache.sps == old(cache.sps) && cache.pps == old(cache.pps) && len(seq(&cache.gop)) == old(len(seq(&cache.gop)))
+//@   ensures pack.(*rtp.Packet).Channel == rtp.ChannelVideo && len(rtpPayload(pack.(*rtp.Packet))) < 3 ==> !keyframe && cache.sps == old(cache.sps) && cache.pps == old(cache.pps)
+//@   ensures pack.(*rtp.Packet).Channel == rtp.ChannelVideo && h264Simple(rtpPayload(pack.(*rtp.Packet))) && h264Carries(rtpPayload(pack.(*rtp.Packet)), 7) ==> cache.sps == pack.(*rtp.Packet) && !keyframe
+//@   ensures pack.(*rtp.Packet).Channel == rtp.ChannelVideo && h264Simple(rtpPayload(pack.(*rtp.Packet))) && h264Carries(rtpPayload(pack.(*rtp.Packet)), 8) ==> cache.pps == pack.(*rtp.Packet) && !keyframe
+//@   ensures pack.(*rtp.Packet).Channel == rtp.ChannelVideo && h264Simple(rtpPayload(pack.(*rtp.Packet))) ==> keyframe == h264Carries(rtpPayload(pack.(*rtp.Packet)), 5)
+//@   ensures pack.(*rtp.Packet).Channel == rtp.ChannelVideo && h264Simple(rtpPayload(pack.(*rtp.Packet))) && !h264Carries(rtpPayload(pack.(*rtp.Packet)), 7) ==> cache.sps == old(cache.sps)
+//@   ensures pack.(*rtp.Packet).Channel == rtp.ChannelVideo && h264Simple(rtpPayload(pack.(*rtp.Packet))) && !h264Carries(rtpPayload(pack.(*rtp.Packet)), 8) ==> cache.pps == old(cache.pps)
+//@   ensures keyframe && cache.cacheGop ==> len(seq(&cache.gop)) == 1 && seq(&cache.gop)[0] == pack
+//@   ensures !keyframe && cache.cacheGop && old(len(seq(&cache.gop))) > 0 && pack.(*rtp.Packet).Channel == rtp.ChannelVideo && h264Simple(rtpPayload(pack.(*rtp.Packet))) && !h264Carries(rtpPayload(pack.(*rtp.Packet)), 7) && !h264Carries(rtpPayload(pack.(*rtp.Packet)), 8) ==> len(seq(&cache.gop)) == old(len(seq(&cache.gop))) + 1 && seq(&cache.gop)[old(len(seq(&cache.gop)))] == pack && forall(i, 0, old(len(seq(&cache.gop))), seq(&cache.gop)[i] == old(seq(&cache.gop)[i]))
+//@   ensures !keyframe && old(len(seq(&cache.gop))) == 0 ==> len(seq(&cache.gop)) == 0
+//@   ensures !cache.cacheGop ==> len(seq(&cache.gop)) == old(len(seq(&cache.gop)))
+
+// replay: parameter-set packets first (SPS, PPS), then the cached GOP in order; the cache itself is unchanged
+//@ func (cache *H264Cache) PushTo(q *queue.SyncQueue) (bytes int)
+//@   requires cache != nil && q != nil && !held(&cache.l)
+//@   requires cache.sps != nil ==> rtpOK(cache.sps)
+//@   requires cache.pps != nil ==> rtpOK(cache.pps)
+//@   requires forall(i, 0, len(seq(&cache.gop)), typeIs(seq(&cache.gop)[i], "*rtp.Packet"))
+//@   modifies seq(q.Queue()), held(&cache.l)
+//@   local rangeindex int
+//@   loop 0: modifies
+//@   loop 0: invariant -1 <= rangeindex
+//@   ensures !held(&cache.l)
+//@   ensures len(seq(q.Queue())) == old(len(seq(q.Queue()))) + iteInt(cache.sps != nil, 1, 0) + iteInt(cache.pps != nil, 1, 0) + iteInt(cache.cacheGop, len(seq(&cache.gop)), 0)
+//@   ensures cache.sps != nil ==> seq(q.Queue())[old(len(seq(q.Queue())))] == cache.sps
+//@   ensures cache.pps != nil ==> seq(q.Queue())[old(len(seq(q.Queue()))) + iteInt(cache.sps != nil, 1, 0)] == cache.pps
+//@   ensures cache.cacheGop ==> forall(i, 0, len(seq(&cache.gop)), seq(q.Queue())[old(len(seq(q.Queue()))) + iteInt(cache.sps != nil, 1, 0) + iteInt(cache.pps != nil, 1, 0) + i] == seq(&cache.gop)[i])
+//@   ensures forall(i, 0, old(len(seq(q.Queue()))), seq(q.Queue())[i] == old(seq(q.Queue())[i]))
+
+// ---- FLV late-joiner cache (C02) ------------------------------------------------------------------------------
+//@ extern func (tag *flv.Tag) IsMetadata() (b bool)
+//@   modifies
+//@   ensures b ==> tag.TagType == flv.TagTypeAmf0Data
+
+//@ func (cache *FlvCache) CachePack(pack Pack) (keyframe bool)
+//@   requires cache != nil && typeIs(pack, "*flv.Tag") && pack.(*flv.Tag) != nil && !held(&cache.l)
+//@   modifies cache.metaData, cache.videoSequenceHeader, cache.audioSequenceHeader, seq(&cache.gop), held(&cache.l)
+//@   ensures !held(&cache.l)
+//@   ensures cache.metaData == old(cache.metaData) || cache.metaData == pack.(*flv.Tag)
+//@   ensures cache.videoSequenceHeader == old(cache.videoSequenceHeader) || cache.videoSequenceHeader == pack.(*flv.Tag)
+//@   ensures cache.audioSequenceHeader == old(cache.audioSequenceHeader) || cache.audioSequenceHeader == pack.(*flv.Tag)
+//@   ensures keyframe ==> pack.(*flv.Tag).IsH2645KeyFrame()
+//@   ensures pack.(*flv.Tag).TagType == flv.TagTypeVideo && pack.(*flv.Tag).IsH2645SequenceHeader() ==> cache.videoSequenceHeader == pack.(*flv.Tag) && !keyframe
+//@   ensures pack.(*flv.Tag).TagType == flv.TagTypeAudio && pack.(*flv.Tag).IsAACSequenceHeader() ==> cache.audioSequenceHeader == pack.(*flv.Tag)
+//@   ensures keyframe && cache.cacheGop ==> len(seq(&cache.gop)) == 1 && seq(&cache.gop)[0] == pack
+//@   ensures !keyframe && old(len(seq(&cache.gop))) == 0 ==> len(seq(&cache.gop)) == 0
+//@   ensures !cache.cacheGop ==> len(seq(&cache.gop)) == old(len(seq(&cache.gop)))
+//@   ensures len(seq(&cache.gop)) <= old(len(seq(&cache.gop))) + 1
+
+// replay: fresh copies of the metadata / video / audio header tags stamped with the first GOP tag's timestamp
+// (0 without a GOP), then the cached GOP in order; the cached tags themselves are not modified (frame).
+//@ spec func flvInit(cache *FlvCache) uint32 = seq(&cache.gop)[0].(*flv.Tag).Timestamp
+//@ spec func flvCopyOf(x interface{}, orig *flv.Tag, ts uint32) bool = isFresh(x) && typeIs(x, "*flv.Tag") && x.(*flv.Tag).Timestamp == ts && x.(*flv.Tag).TagType == orig.TagType && x.(*flv.Tag).Filter == orig.Filter && x.(*flv.Tag).StreamID == orig.StreamID && x.(*flv.Tag).DataSize == orig.DataSize && sameSlice(x.(*flv.Tag).Data, orig.Data)
+//@ func (cache *FlvCache) PushTo(q *queue.SyncQueue) (bytes int)
+//@   requires cache != nil && q != nil && !held(&cache.l)
+//@   requires forall(i, 0, len(seq(&cache.gop)), typeIs(seq(&cache.gop)[i], "*flv.Tag") && seq(&cache.gop)[i].(*flv.Tag) != nil)
+//@   modifies seq(q.Queue()), held(&cache.l)
+//@   local rangeindex int
+//@   loop 0: modifies
+//@   loop 0: invariant -1 <= rangeindex
+//@   split cache.metaData != nil, cache.videoSequenceHeader != nil, cache.audioSequenceHeader != nil, len(seq(&cache.gop)) > 0
+//@   ensures !held(&cache.l)
+//@   ensures len(seq(q.Queue())) == old(len(seq(q.Queue()))) + iteInt(cache.metaData != nil, 1, 0) + iteInt(cache.videoSequenceHeader != nil, 1, 0) + iteInt(cache.audioSequenceHeader != nil, 1, 0) + len(seq(&cache.gop))
+//@   ensures cache.metaData != nil && len(seq(&cache.gop)) > 0 ==> flvCopyOf(seq(q.Queue())[old(len(seq(q.Queue())))], cache.metaData, flvInit(cache))
+//@   ensures cache.metaData != nil && len(seq(&cache.gop)) == 0 ==> flvCopyOf(seq(q.Queue())[old(len(seq(q.Queue())))], cache.metaData, 0)
+//@   ensures cache.videoSequenceHeader != nil && len(seq(&cache.gop)) > 0 ==> flvCopyOf(seq(q.Queue())[old(len(seq(q.Queue()))) + iteInt(cache.metaData != nil, 1, 0)], cache.videoSequenceHeader, flvInit(cache))
+//@   ensures cache.videoSequenceHeader != nil && len(seq(&cache.gop)) == 0 ==> flvCopyOf(seq(q.Queue())[old(len(seq(q.Queue()))) + iteInt(cache.metaData != nil, 1, 0)], cache.videoSequenceHeader, 0)
+//@   ensures cache.audioSequenceHeader != nil && len(seq(&cache.gop)) > 0 ==> flvCopyOf(seq(q.Queue())[old(len(seq(q.Queue()))) + iteInt(cache.metaData != nil, 1, 0) + iteInt(cache.videoSequenceHeader != nil, 1, 0)], cache.audioSequenceHeader, flvInit(cache))
+//@   ensures cache.audioSequenceHeader != nil && len(seq(&cache.gop)) == 0 ==> flvCopyOf(seq(q.Queue())[old(len(seq(q.Queue()))) + iteInt(cache.metaData != nil, 1, 0) + iteInt(cache.videoSequenceHeader != nil, 1, 0)], cache.audioSequenceHeader, 0)
+//@   ensures forall(i, 0, len(seq(&cache.gop)), seq(q.Queue())[old(len(seq(q.Queue()))) + iteInt(cache.metaData != nil, 1, 0) + iteInt(cache.videoSequenceHeader != nil, 1, 0) + iteInt(cache.audioSequenceHeader != nil, 1, 0) + i] == seq(&cache.gop)[i])
+//@   ensures forall(i, 0, old(len(seq(q.Queue()))), seq(q.Queue())[i] == old(seq(q.Queue())[i]))
+
+// ---- H.265 late-joiner cache (C02) ------------------------------------------------------------------------
+//@ spec func hevcSimple(p []byte) bool = len(p) >= 3 && hevcType(p) != 48
+//@ spec func hevcCarries(p []byte, t byte) bool = (hevcType(p) != 49 && hevcType(p) == t) || (hevcType(p) == 49 && p[2]&0x80 != 0 && p[2]&0x3f == t)
+//@ spec func hevcCarriesIrap(p []byte) bool = (hevcType(p) != 49 && hevcIrap(hevcType(p))) || (hevcType(p) == 49 && p[2]&0x80 != 0 && hevcIrap(p[2]&0x3f))
+
+//@ func (cache *HevcCache) CachePack(pack Pack) (keyframe bool)
+//@   requires cache != nil && typeIs(pack, "*rtp.Packet") && rtpOK(pack.(*rtp.Packet)) && !held(&cache.l)
+//@   modifies cache.vps, cache.sps, cache.pps, seq(&cache.gop), held(&cache.l)
+//@   ensures !held(&cache.l)
+//@   ensures pack.(*rtp.Packet).Channel != rtp.ChannelVideo ==> !keyframe && cache.vps == old(cache.vps) && cache.sps == old(cache.sps) && cache.pps == old(cache.pps) && len(seq(&cache.gop)) == old(len(seq(&cache.gop)))
+//@   ensures pack.(*rtp.Packet).Channel == rtp.ChannelVideo && hevcSimple(rtpPayload(pack.(*rtp.Packet))) && hevcCarries(rtpPayload(pack.(*rtp.Packet)), 32) ==> cache.vps == pack.(*rtp.Packet) && !keyframe
+//@   ensures pack.(*rtp.Packet).Channel == rtp.ChannelVideo && hevcSimple(rtpPayload(pack.(*rtp.Packet))) && hevcCarries(rtpPayload(pack.(*rtp.Packet)), 33) ==> cache.sps == pack.(*rtp.Packet) && !keyframe
+//@   ensures pack.(*rtp.Packet).Channel == rtp.ChannelVideo && hevcSimple(rtpPayload(pack.(*rtp.Packet))) && hevcCarries(rtpPayload(pack.(*rtp.Packet)), 34) ==> cache.pps == pack.(*rtp.Packet) && !keyframe
+//@   ensures pack.(*rtp.Packet).Channel == rtp.ChannelVideo && hevcSimple(rtpPayload(pack.(*rtp.Packet))) ==> keyframe == hevcCarriesIrap(rtpPayload(pack.(*rtp.Packet)))
+//@   ensures keyframe && cache.cacheGop ==> len(seq(&cache.gop)) == 1 && seq(&cache.gop)[0] == pack
+//@   ensures !keyframe && cache.cacheGop && old(len(seq(&cache.gop))) > 0 && pack.(*rtp.Packet).Channel == rtp.ChannelVideo && hevcSimple(rtpPayload(pack.(*rtp.Packet))) && !hevcCarries(rtpPayload(pack.(*rtp.Packet)), 32) && !hevcCarries(rtpPayload(pack.(*rtp.Packet)), 33) && !hevcCarries(rtpPayload(pack.(*rtp.Packet)), 34) ==> len(seq(&cache.gop)) == old(len(seq(&cache.gop))) + 1 && seq(&cache.gop)[old(len(seq(&cache.gop)))] == pack && forall(i, 0, old(len(seq(&cache.gop))), seq(&cache.gop)[i] == old(seq(&cache.gop)[i]))
+//@   ensures !keyframe && old(len(seq(&cache.gop))) == 0 ==> len(seq(&cache.gop)) == 0
+//@   ensures !cache.cacheGop ==> len(seq(&cache.gop)) == old(len(seq(&cache.gop)))
+
+//@ func (cache *HevcCache) PushTo(q *queue.SyncQueue) (bytes int)
+//@   requires cache != nil && q != nil && !held(&cache.l)
+//@   requires cache.vps != nil ==> rtpOK(cache.vps)
+//@   requires cache.sps != nil ==> rtpOK(cache.sps)
+//@   requires cache.pps != nil ==> rtpOK(cache.pps)
+//@   requires forall(i, 0, len(seq(&cache.gop)), typeIs(seq(&cache.gop)[i], "*rtp.Packet"))
+//@   modifies seq(q.Queue()), held(&cache.l)
+//@   local rangeindex int
+//@   loop 0: modifies
+//@   loop 0: invariant -1 <= rangeindex
+//@   ensures !held(&cache.l)
+//@   ensures len(seq(q.Queue())) == old(len(seq(q.Queue()))) + iteInt(cache.vps != nil, 1, 0) + iteInt(cache.sps != nil, 1, 0) + iteInt(cache.pps != nil, 1, 0) + iteInt(cache.cacheGop, len(seq(&cache.gop)), 0)
+//@   ensures cache.vps != nil ==> seq(q.Queue())[old(len(seq(q.Queue())))] == cache.vps
+//@   ensures cache.sps != nil ==> seq(q.Queue())[old(len(seq(q.Queue()))) + iteInt(cache.vps != nil, 1, 0)] == cache.sps
+//@   ensures cache.pps != nil ==> seq(q.Queue())[old(len(seq(q.Queue()))) + iteInt(cache.vps != nil, 1, 0) + iteInt(cache.sps != nil, 1, 0)] == cache.pps
+//@   ensures cache.cacheGop ==> forall(i, 0, len(seq(&cache.gop)), seq(q.Queue())[old(len(seq(q.Queue()))) + iteInt(cache.vps != nil, 1, 0) + iteInt(cache.sps != nil, 1, 0) + iteInt(cache.pps != nil, 1, 0) + i] == seq(&cache.gop)[i])
+//@   ensures forall(i, 0, old(len(seq(q.Queue()))), seq(q.Queue())[i] == old(seq(q.Queue())[i]))
